@@ -275,6 +275,107 @@ async fn single_ops(ctx: &Ctx, rng: &mut Rng, epmd: &net::EpmdTable, header_mode
     peer_task.abort();
 }
 
+/// "Operations before the handshake completes fail without writing" - also when a handshake was attempted and
+/// failed at its last steps: the peer records every byte that arrives after its final handshake message.
+async fn after_failed_handshake(ctx: &Ctx, epmd: &net::EpmdTable, round: usize) {
+    use tokio::io::AsyncReadExt;
+    for (k, kind) in ["wrong-ack-digest", "status-nok", "closed-after-reply", "short-ack", "ack-for-another-cookie", "status-alive-then-close"].iter().enumerate() {
+        let name = format!("f{}x{}", round, k);
+        let pl = net::listen_as(epmd, &name).await;
+        let kind_s = kind.to_string();
+        let peer_task = tokio::spawn(async move {
+            let mut peer = match pl.accept("cookie", PEER_BASE_FLAGS, 4711).await {
+                Ok(p) => p,
+                Err(_) => return None,
+            };
+            peer.recv_name().await.ok()?;
+            let mut hold_open = true;
+            match kind_s.as_str() {
+                "status-nok" => {
+                    let _ = peer.write_frame2(&net::Peer::status_body("nok")).await;
+                }
+                "status-alive-then-close" => {
+                    let _ = peer.write_frame2(&net::Peer::status_body("alive")).await;
+                }
+                _ => {
+                    let _ = peer.write_frame2(&net::Peer::status_body("ok")).await;
+                    let ch = peer.challenge_body();
+                    let _ = peer.write_frame2(&ch).await;
+                    let (client_challenge, _digest) = peer.recv_reply().await.ok()?;
+                    match kind_s.as_str() {
+                        "wrong-ack-digest" => {
+                            let mut d = crate::refmodel::md5::challenge_digest("cookie", client_challenge);
+                            d[7] ^= 0x40;
+                            let _ = peer.write_frame2(&net::Peer::ack_body(&d)).await;
+                        }
+                        "ack-for-another-cookie" => {
+                            let d = crate::refmodel::md5::challenge_digest("another cookie", client_challenge);
+                            let _ = peer.write_frame2(&net::Peer::ack_body(&d)).await;
+                        }
+                        "short-ack" => {
+                            let _ = peer.write_frame2(&[b'a', 1, 2, 3]).await;
+                        }
+                        _ => hold_open = false, // closed-after-reply
+                    }
+                }
+            }
+            if !hold_open {
+                return Some(Vec::new());
+            }
+            // everything that still arrives on this socket
+            let mut extra: Vec<u8> = Vec::new();
+            let mut buf = [0u8; 4096];
+            loop {
+                match tokio::time::timeout(Duration::from_millis(400), peer.sock.read(&mut buf)).await {
+                    Ok(Ok(0)) | Ok(Err(_)) | Err(_) => break,
+                    Ok(Ok(n)) => extra.extend_from_slice(&buf[..n]),
+                }
+            }
+            Some(extra)
+        });
+        let cfg = ConnectionConfig::new("rust@127.0.0.1", format!("{}@127.0.0.1", name), "cookie").with_epmd_host("127.0.0.1").with_timeout(Duration::from_millis(1500));
+        let mut conn = Connection::new(cfg);
+        let connected = conn.connect().await.is_ok();
+        ctx.eval(1);
+        ctx.class(&format!("after-failed-handshake/{}", kind));
+        if connected {
+            // whether this handshake may succeed is C04's question; nothing to judge here
+            ctx.count("failed_handshake_scenarios_that_connected", 1);
+            peer_task.abort();
+            continue;
+        }
+        let p0 = ExternalPid::new(Atom::new("rust@127.0.0.1"), 1, 0, 1);
+        let r0 = ExternalReference::new(Atom::new("rust@127.0.0.1"), 1, vec![1, 2, 3]);
+        let results = [
+            ("send", conn.send_message(p0.clone(), p0.clone(), OwnedTerm::atom("leak")).await.is_ok()),
+            ("send_to_name", conn.send_to_name(p0.clone(), Atom::new("x"), OwnedTerm::atom("leak")).await.is_ok()),
+            ("link", conn.link(&p0, &p0).await.is_ok()),
+            ("unlink", conn.unlink(&p0, &p0, 1).await.is_ok()),
+            ("monitor", conn.monitor(&p0, &p0, &r0).await.is_ok()),
+            ("demonitor", conn.demonitor(&p0, &p0, &r0).await.is_ok()),
+        ];
+        ctx.eval(6);
+        let accepted: Vec<&str> = results.iter().filter(|(_, ok)| *ok).map(|(n, _)| *n).collect();
+        let extra = match tokio::time::timeout(Duration::from_secs(5), peer_task).await {
+            Ok(Ok(Some(x))) => x,
+            _ => Vec::new(),
+        };
+        if !accepted.is_empty() {
+            ctx.viol(
+                &format!("C07:operation-after-failed-handshake-accepted:{}", kind),
+                "a send-side operation succeeded on a connection whose handshake had failed",
+                json!({"handshake_failure": kind, "operations_that_returned_ok": accepted, "bytes_seen_by_peer_afterwards": extra.len()}),
+            );
+        } else if !extra.is_empty() {
+            ctx.viol(
+                &format!("C07:bytes-written-after-failed-handshake:{}", kind),
+                "bytes reached the peer after the handshake had failed",
+                json!({"handshake_failure": kind, "bytes": hex_cap(&extra, 64)}),
+            );
+        }
+    }
+}
+
 /// Many tasks sending through one Node; the peer's byte stream must split into whole frames.
 async fn concurrent(ctx: &Ctx, rng: &mut Rng, epmd: &net::EpmdTable, run_id: usize, with_yields: bool) {
     let name = format!("c{}", run_id);
@@ -452,7 +553,7 @@ async fn concurrent(ctx: &Ctx, rng: &mut Rng, epmd: &net::EpmdTable, run_id: usi
 }
 
 pub fn run(ctx: &Ctx) {
-    ctx.rule("(1) every operation (send, send_to_name, link, unlink, monitor, demonitor) x argument classes (plain and node-local pids, names of 0..255 chars incl. non-ASCII, payloads from the term generator, unlink ids over the 64-bit range, references of 1..3 words) x both framing modes against a directly driven Connection, each frame read by an independent implementation; operations before the handshake; (2) 2..64 tasks x 5..40 operations through one Node on a current-thread runtime with seeded yields at the partial-write hooks and on a multi-thread runtime; evaluations = operations judged; distinct = distinct (mode, operation, argument class) + concurrency configurations + observed frame interleavings (hash of the caller sequence at the peer)");
+    ctx.rule("(1) every operation (send, send_to_name, link, unlink, monitor, demonitor) x argument classes (plain and node-local pids, names of 0..255 chars incl. non-ASCII, payloads from the term generator, unlink ids over the 64-bit range, references of 1..3 words) x both framing modes against a directly driven Connection, each frame read by an independent implementation; operations before the handshake and after a handshake that failed at its last steps (wrong ack digest, refusal status, short ack, close), with the peer recording any byte that still arrives; (2) 2..64 tasks x 5..40 operations through one Node on a current-thread runtime with seeded yields at the partial-write hooks and on a multi-thread runtime; evaluations = operations judged; distinct = distinct (mode, operation, argument class) + concurrency configurations + observed frame interleavings (hash of the caller sequence at the peer)");
     ctx.assume("unique ids travel in the payload, or in the `from` pid for payload-less operations");
     let mut rng = Rng::derive(ctx.seed, 7, 1);
     {
@@ -462,6 +563,7 @@ pub fn run(ctx: &Ctx) {
             for round in 0..ctx.pick(2usize, 20usize) {
                 single_ops(ctx, &mut rng, &epmd, false, round).await;
                 single_ops(ctx, &mut rng, &epmd, true, round).await;
+                after_failed_handshake(ctx, &epmd, round).await;
             }
             for r in 0..ctx.pick(25usize, 2500usize) {
                 if !ctx.time_left() {
